@@ -1,6 +1,7 @@
 # C19 No traffic amplification towards addresses that have not proven themselves
 import re
 from sa.rules import *
+import rules.shared as shared
 from rules.netcode_common import *
 from sa import codec
 
@@ -48,4 +49,5 @@ def rules(t):
             sends = [c for c in t.calls(r"closure#0|send_to", f) if c.bb in region and ("Fn" in callee_name(c.node) or "send_to" in callee_name(c.node))]
             if len(sends) > 1: r.bad(f"arm|{nm}", sends[1], f"{nm}: more than one datagram sent")
     out.append(r)
+    out.append(shared.aad_rule(t, "C19.f", "token"))
     return out
